@@ -54,7 +54,7 @@ type c20Call struct {
 }
 
 func c20Worker(env *fw.Env) {
-	total := int64(env.Pick(120, 1200))
+	total := int64(env.Pick(80, 1200))
 	for i := int64(0); i < total; i++ {
 		if !env.Mine(i) || !env.Want(i) {
 			continue
@@ -380,6 +380,53 @@ func c20One(env *fw.Env, i int64) {
 			} else {
 				env.Event("reconnecting_positive_in_streak", 1)
 			}
+		}
+	}
+
+	// ---- part B2: a write that fails on the write timeout (peer stops reading) is a failed send: err+1 ----
+	if i%4 == 0 {
+		_ = rg.Conn.UpdateConfigOptions(hsms.WithWriteTimeout(250 * time.Millisecond))
+		err0, send0 := int64(mt.DataMsgErrCount()), int64(mt.DataMsgSendCount())
+		big := secs2.B(make([]byte, 1<<20))
+		_ = big.ToBytes()
+		pc2.StallReads(true)
+		var okCalls, failed int64
+		var failErr error
+		for n := 0; n < 200 && failed == 0; n++ {
+			ctx, cancel := context.WithTimeout(context.Background(), 10*time.Second)
+			_, err := rg.Conn.SendDataMessage(ctx, 3, 1, false, big)
+			cancel()
+			switch {
+			case err == nil:
+				okCalls++
+			case errors.Is(err, hsms.ErrNotSelectedState), errors.Is(err, hsms.ErrConnClosed):
+				n = 1000 // the link went away for another reason: not the outcome under test
+			default:
+				failed++
+				failErr = err
+			}
+		}
+		pc2.StallReads(false)
+		if failed == 1 {
+			waitFor(5*time.Second, func() bool { return rg.Conn.State() != hsms.SelectedState })
+			if got := int64(mt.DataMsgErrCount()) - err0; got != 1 {
+				env.Violate("counter-DataMsgErrCount-write-timeout", fmt.Sprintf("a synchronous data send failed with %q (write to a peer that stopped reading, write timeout 250 ms) and DataMsgErrCount moved by %d, want 1", failErr, got), cs)
+			}
+			if got := int64(mt.DataMsgSendCount()) - send0; got != okCalls {
+				env.Violate("counter-DataMsgSendCount-write-timeout", fmt.Sprintf("%d sends returned nil before the write timeout and DataMsgSendCount moved by %d", okCalls, got), cs)
+			}
+			env.Event("outcome_write_timeout", 1)
+			pc3, _, err := rg.NextGenRetry(onFrame, 6)
+			if err != nil {
+				env.Violate("no-recovery", fmt.Sprintf("after a write timeout the connection did not come back: %v", err), cs)
+				return
+			}
+			defer pc3.Close()
+			if !quiesce(0, pc3) {
+				return
+			}
+			check("after-write-timeout", "DataMsgInflightCount", mt.DataMsgInflightCount(), 0)
+			check("after-write-timeout", "Reconnecting", mt.Reconnecting(), 0)
 		}
 	}
 
